@@ -208,7 +208,7 @@ def _guard_parts():
     publishes a fiber before its context is saved is reported by this check too."""
     import specs_c01
     out = []
-    for name, nq, nt in (("rt", 250, 3000), ("rt-signal", 80, 1000)):
+    for name, nq, nt in (("rt", 900, 6000), ("rt-signal", 80, 1000)):
         src = [p for p in specs_c01.SPEC["C01"]["parts"] if p["name"] == name][0]
         part = dict(src)
         part["name"] = "guard-" + name
